@@ -401,14 +401,17 @@ def replay_group(model, seed, inst):
     from optimum.quanto.tensor.qbits.group import group, ungroup
 
     rank, axis = inst["rank"], inst["axis"]
-    shapes = {1: [[8], [6]], 2: [[4, 8], [3, 6], [8, 4]], 3: [[2, 4, 4], [3, 2, 6], [8, 4, 16]], 4: [[2, 2, 2, 4], [4, 3, 2, 2]]}[rank]
+    shapes = {1: [[8], [6]], 2: [[4, 8], [3, 6], [8, 4]], 3: [[2, 4, 4], [3, 2, 6], [8, 4, 16], [4, 6, 10]], 4: [[2, 2, 2, 4], [4, 3, 2, 2], [4, 8, 3, 3]]}[rank]
     for shape in shapes:
         x = torch.arange(int(torch.tensor(shape).prod())).reshape(shape).float()
         k = axis % rank
         n = x.numel() // shape[k]
         for gs in [g for g in range(1, n + 1) if n % g == 0]:
             try:
-                u = ungroup(group(x, axis, gs), axis, x.shape)
+                g = group(x, axis, gs)
+                if g.ndim != 2 or g.numel() != x.numel() or (g.shape[-1] if axis == 0 else g.shape[0]) != gs:
+                    return {"what": "group() does not return numel/G groups of G elements", "shape": shape, "axis": axis, "group_size": gs, "grouped_shape": list(g.shape)}
+                u = ungroup(g, axis, x.shape)
             except Exception as e:
                 return {"what": f"group/ungroup raises {type(e).__name__}: {str(e)[:120]}", "shape": shape, "axis": axis, "group_size": gs}
             if tuple(u.shape) != tuple(x.shape) or not torch.equal(u, x):
